@@ -18,7 +18,24 @@ func main() {
 	tags := flag.String("tags", "", "build tags")
 	keep := flag.Bool("keep", false, "keep the declarations of inlined functions (so that test files still compile)")
 	only := flag.String("only", "", "comma separated substrings: inline only functions whose full name contains one of them")
+	cands := flag.Bool("candidates", false, "list the helpers that would be inlined in the first round (one full name per line) and exit")
 	flag.Parse()
+	if *cands {
+		env := append(os.Environ(), "GOFLAGS=-mod=mod", "GOPROXY=off", "GOSUMDB=off", "GOWORK=off", "GOTOOLCHAIN=local")
+		var bf []string
+		if *tags != "" {
+			bf = []string{"-tags=" + *tags}
+		}
+		cs, err := norm.Candidates(*repo, env, bf, an.ModulePath, "./glow", "./server", "./client")
+		if err != nil {
+			fmt.Fprintln(os.Stderr, "error:", err)
+			os.Exit(2)
+		}
+		for _, c := range cs {
+			fmt.Println(c.Callee)
+		}
+		return
+	}
 	norm.KeepDecls = *keep
 	if *only != "" {
 		subs := strings.Split(*only, ",")
